@@ -21,8 +21,9 @@ for m in mutants.M:
         p=os.path.join(REPO,m['file'])
         try: s=open(p).read()
         except Exception: jobs.append((m['id'],None,'stale: file missing')); continue
-        if s.count(m['find'])!=1: jobs.append((m['id'],None,'stale: find matches %d times'%s.count(m['find']))); continue
-        jobs.append((m['id'],{p:s.replace(m['find'],m['replace'])},''))
+        ms=mutants.apply(m,s)
+        if ms is None: jobs.append((m['id'],None,'stale: find does not match exactly once')); continue
+        jobs.append((m['id'],{p:ms},''))
 for meta in sorted(glob.glob(V+'/seeded/*/*/meta.json')):
     md=json.load(open(meta))
     if not md.get('confirmed'): continue
